@@ -9,7 +9,7 @@ for d in sorted(glob.glob('/verif/seeded/*')):
     needs = (m.get('needs') or '').replace('\n', ' ').replace('|', '/')
     if len(needs) > 230: needs = needs[:227] + '...'
     by = m.get('detected_by') or m['property']
-    tier = 'quick' if 'quick' in (m.get('check_cmd') or 'quick') else 'thorough'
+    tier = 'thorough' if m.get('detected_tier', '').startswith('thorough') else 'quick'
     det = f'{by} ({tier})' if m.get('detected') else 'NOT caught by ' + by + ' ' + tier
     vio = ((m.get('check_output') or [''])[0]).strip().replace('|', '/')
     vio = vio.replace('violation kind=', '')[:120]
